@@ -3,7 +3,7 @@
 (* pair, and every intermediate state reachable from the root by ANY admissible candidate (not only greedy ones). *)
 (* For each state the spec emits the full candidate table with exact gains; the harness asks the real            *)
 (* find_best_split (compiled and .pyx-interpreted) for its pick in the same state.                                *)
-EXTENDS KauriCore
+EXTENDS KauriCore, IOUtils
 
 CONSTANTS V,          \* feature values range over 0..V
           NCH, CHUNKS,\* work partition (parallelism / seeded sub-sampling)
@@ -29,6 +29,13 @@ AnySplit == /\ ph = "state" /\ st.nL < MaxLeavesEnum
             /\ \E c \in Cands(X, st, 0..(st.nL - 1), 1..D, kmax, minleaf) : st' = Apply(X, st, c)
             /\ UNCHANGED <<ph, chunk, X, kn, kmax, minleaf>>
 Next == PickChunk \/ PickCase \/ AnySplit
+
+(* Probe: one given state (read from the JSON file named by PROBE_FILE) instead of the enumeration; the same Output and the    *)
+(* same theorems are evaluated on it.  Used to re-examine, on every run, the recorded failing state of a known finding.       *)
+Probe == JsonDeserialize(IOEnv.PROBE_FILE)
+ProbeInit == /\ ph = "state" /\ chunk = 0 /\ X = Probe.X /\ kn = Probe.kn /\ kmax = Probe.kmax /\ minleaf = Probe.minleaf
+             /\ st = [leafOf |-> Probe.leafOf, clOf |-> Probe.clOf, nL |-> Probe.nL, nC |-> Probe.nC]
+ProbeNext == FALSE /\ UNCHANGED vars
 
 (* the queries put to the real find_best_split in each state: which leaves are explorable, which features drawn *)
 ExplVariants(s) == {0..(s.nL - 1)} \cup (IF s.nL >= 2 THEN {1..(s.nL - 1), {0}} ELSE {})
